@@ -154,8 +154,10 @@ class Check:
             "wall_s": round(time.time() - self.t0, 2),
             "violations": self.violations,
         }
-        EVIDENCE.mkdir(exist_ok=True)
-        (EVIDENCE / f"{self.pid}.json").write_text(json.dumps(ev, indent=1, ensure_ascii=False, default=repr) + "\n")
+        # extension checks (ids X01..: behaviour beyond the listed properties) keep their evidence apart
+        evdir = EVIDENCE if not self.pid.startswith("X") else ROOT / "evidence_ext"
+        evdir.mkdir(exist_ok=True)
+        (evdir / f"{self.pid}.json").write_text(json.dumps(ev, indent=1, ensure_ascii=False, default=repr) + "\n")
         print(f"{self.pid} tier={self.tier} evaluations={self.cov['evaluations']} "
               f"distinct={self.cov['distinct_nontrivial']} violations={self.violations} "
               f"known={sum(self.known_hit.values())} wall={ev['wall_s']}s", flush=True)
